@@ -325,6 +325,57 @@ example :
     wellFiled g0 = true ∧ wellFiled (runG g0 [.create "T-{}".toList false []]) = false := by
   decide +kernel
 
+/-! ### stored objects stay filed -/
+
+/-- **A creation keeps every stored object filed**, under the two side conditions the code relies on silently: the file store is a
+    dict (member names pairwise distinct) and, when the creation makes a NEW member, the name `pattern.format(id) + ".iwa"` is not
+    taken (`create_object_from_dict` tests the unformatted pattern and never looks).  The object created is filed as well. -/
+theorem stored_objects_stay_filed_create (g : GStore) (f : List Char) (a : Bool) (rs : List Nat)
+    (hw : wellFiled g = true) (hk : (dictKeys g.files).Nodup) (hb : ∀ i ∈ g.ids, i ≤ g.maxId)
+    (hnew : iwaPaths g.files f = [] → a = false →
+      dictGet? g.files (pyFormat1 f (natStr (g.maxId + 1)) ++ ".iwa".toList) = none) :
+    wellFiled (createG g f a rs).1 = true :=
+  wellFiled_createG g f a rs hw hk hb hnew
+
+/-- **…over histories.**  From any state in which every stored object is filed, the file store is a dict and no identifier exceeds
+    the high-water mark (`FiledInv`: true of every freshly opened document), every history of creations (succeeding or raising),
+    component entries, reference writes and removals, `update_object_file_store` runs and blob additions in which no new member
+    takes an existing member's name (`namesFree`, decidable, evaluated state by state) ends in such a state: `wellFiled` — the
+    hypothesis of `header_refs_exact` — holds at every save. -/
+theorem stored_objects_stay_filed (g : GStore) (ops : List GOp) (h : FiledInv g) (hops : namesFree g ops = true) :
+    FiledInv (runG g ops) ∧ wellFiled (runG g ops) = true :=
+  ⟨filedInv_run ops g h hops, (filedInv_run ops g h hops).1⟩
+
+/-- …so every save of such a history writes exact headers -/
+theorem header_refs_exact_history (g : GStore) (ops : List GOp) (h : FiledInv g) (hops : namesFree g ops = true) :
+    (updateFileStore (runG g ops)).2 = .ok () ∧
+    ∀ i ∈ (runG g ops).ids, (updateFileStore (runG g ops)).1.writtenOf i = (runG g ops).refsOf i ∧
+      ((runG g ops).refsOf i ≠ [] → (updateFileStore (runG g ops)).1.hdrOf i = (runG g ops).refsOf i) := by
+  obtain ⟨h1, _, _, h4⟩ := header_refs_exact (runG g ops) (stored_objects_stay_filed g ops h hops).2
+  exact ⟨h1, fun i hi => ⟨(h4 i hi).1, (h4 i hi).2.1⟩⟩
+
+/-! non-vacuity: the document of the example above as opened satisfies `FiledInv`, its history `namesFree`; in the counter-example
+    below (`T-1000001.iwa` already there) `namesFree` is false — exactly the side condition -/
+example :
+    let g0 : GStore := {
+      maxId := 2000000, lastObjId := 1999999, ids := [1, 2, 7, 1999999],
+      fileOf := [(1, "Index/Document.iwa".toList), (2, "Index/Metadata.iwa".toList), (7, "Index/Document.iwa".toList),
+                 (1999999, "Index/CalculationEngine.iwa".toList)],
+      files := [("Metadata/DocumentIdentifier".toList, none), ("Index/Document.iwa".toList, some [1, 7]),
+                ("Index/Metadata.iwa".toList, some [2]), ("Index/CalculationEngine.iwa".toList, some [1999999])],
+      shared := [1, 2, 7, 1999999] }
+    let ops := [GOp.create "Index/Tables/Tile-{}".toList false [], .create "Document".toList false [7], .blob "Data/x.png".toList,
+      .create "CalculationEngine".toList false [7, 2000003], .update]
+    (wellFiled g0 = true ∧ (dictKeys g0.files).Nodup ∧ ∀ i ∈ g0.ids, i ≤ g0.maxId) ∧ namesFree g0 ops = true ∧
+    wellFiled (runG g0 ops) = true ∧ (runG g0 ops).ids = [1, 2, 7, 1999999, 2000001, 2000002, 2000003] := by
+  decide +kernel
+example :
+    let g0 : GStore := {
+      maxId := 1000000, lastObjId := 9, ids := [2, 5], fileOf := [(2, ['m']), (5, "T-1000001.iwa".toList)],
+      files := [(['m'], some [2]), ("T-1000001.iwa".toList, some [5])], shared := [2, 5] }
+    namesFree g0 [.create "T-{}".toList false []] = false := by
+  decide +kernel
+
 /-! ### tiles -/
 
 /-- For every row count the tiles account for exactly the rows 0..n−1, in order, each row once. -/
